@@ -1,6 +1,7 @@
 import MdIt.Drv.Ruler
 import MdIt.Drv.Conc
 import MdIt.Drv.Inst
+import MdIt.Drv.World
 open MdIt
 
 def handle (line : String) : String :=
@@ -9,6 +10,7 @@ def handle (line : String) : String :=
   | "facade" :: rest => Drv.facadeLine rest
   | "conc" :: rest => Drv.concLine rest
   | "reset" :: rest => Drv.resetLine rest
+  | "world" :: rest => Drv.worldLine rest
   | _ => "bad-request"
 
 partial def loop (hin hout : IO.FS.Stream) : IO Unit := do
